@@ -7,8 +7,10 @@
    (4) bindings with namespace.labelSelector: the informer set follows the set of matching
    namespaces (theorems C02_dyn_...); the namespace-level ghost (C02_dyn_refuted_F32) is reported.
    (5) the start window of a monitor (C02_Win): changes between the informer's initial list
-   (CreateInformers) and its start reach the cache through the informer's own list (C02_window_...). *)
-From Verif Require Import Common C02_Model C02_Spec C02_Proofs C02_DynProofs C02_Comp C02_CompSpec C02_CompProofs C02_Win C02_WinSpec C02_WinProofs C02_Hook C02_HookSpec C02_HookProofs.
+   (CreateInformers) and its start reach the cache through the informer's own list (C02_window_...).
+   (7) watch outages (C02_Relist): changes the operator learns about through a re-list - deleted objects as
+   tombstones (cache.DeletedFinalStateUnknown by value), changed ones as updates, new ones as adds (C02_relist_...). *)
+From Verif Require Import Common C02_Model C02_Spec C02_Proofs C02_DynProofs C02_Comp C02_CompSpec C02_CompProofs C02_Win C02_WinSpec C02_WinProofs C02_Hook C02_HookSpec C02_HookProofs C02_Relist C02_RelistSpec C02_RelistProofs.
 From Verif Require C01_Model C01_Spec C01_Proofs.
 Open Scope N_scope.
 
@@ -215,3 +217,43 @@ Example C02_hook_hyp_met :
                   [[(TKube, 1, true)]; [(TSched, 1, false)]; [(TValid, 2, false); (TKube, 1, false)]; [(TKube, 1, true)]] in
   hk_wf i = true /\ T_vm i = false /\ hk_run i = [[([(1, 1); (2, 2)], 1)]; [([(3, 3)], 0)]; [([(1, 1); (2, 2)], 0); ([(1, 1); (2, 2)], 0)]; [([(1, 1); (2, 2)], 1)]].
 Proof. vm_compute. repeat split; reflexivity. Qed.
+
+(* (7) changes seen through a RE-LIST (C02_Relist / C02_RelistSpec).  For every static binding (namespaces,
+   names, repeated entries) and every namespace.labelSelector binding over a set of labelled namespaces, every jqFilter / keepFullObjectsInMemory setting, every initial cluster and EVERY
+   history of object changes delivered by the watch, watch outages (any number, at any position, with any
+   changes inside: objects deleted, modified inside or outside the filter's projection, created, created and
+   deleted again, deleted and re-created) after which the reflector lists again and client-go hands the
+   difference to the handler as OnUpdate / OnAdd / OnDelete(cache.DeletedFinalStateUnknown{...}), and reads of
+   the snapshot: EVERY read (in the middle of the history and at its end) shows exactly the matching objects
+   of the cluster as it is at that moment, each once, ordered by namespace and name, each with its current
+   filter result and object.  No hypothesis. *)
+Theorem C02_relist_views_are_matching : forall i, P_rl i (rl_views i) false = true.
+Proof. exact relist_views_are_matching. Qed.
+Print Assumptions C02_relist_views_are_matching.
+
+(* one informer, one outage at ANY position (st: any state in which the reflector's store and the handler's
+   cache hold the cluster's objects of the informer's scope): after the re-list's deliveries the cached view
+   is exactly the cluster's objects of the scope as the cluster is AFTER the outage *)
+Theorem C02_relist_restores_cache : forall s st inner, inv s st ->
+  let st' := inf_step s st (ROut inner) in
+  forall x, In x (i_cache st') <-> In x (fold_left cl_apply inner (i_cl st)) /\ in_scope s x = true.
+Proof. exact relist_restores_cache. Qed.
+Print Assumptions C02_relist_restores_cache.
+
+(* ... and every reachable informer state is such a state *)
+Theorem C02_relist_invariant : forall i s pre, inv s (inf_run i s pre).
+Proof. exact inf_run_inv. Qed.
+Print Assumptions C02_relist_invariant.
+
+(* non-vacuity of the hypothesis of C02_relist_restores_cache, and a history: two outages (an object deleted,
+   one modified outside the filter's projection, one created in the first; the created one deleted and the
+   deleted one re-created in the second), a watch event between them, reads in the middle and at the end *)
+Example C02_relist_hyp_met :
+  let i := mkRlIn false [1; 2; 1] [] [(1, 1, 13); (1, 2, 4); (3, 1, 7)]
+                  [ROut [(ODelete, (1, 2, 4)); (OModify, (1, 1, 23)); (OCreate, (2, 1, 9)); (OCreate, (3, 2, 1))]; RRead;
+                   RObj (OModify, (1, 1, 24));
+                   ROut [(ODelete, (2, 1, 9)); (OCreate, (1, 2, 15))]] true true in
+  inv (Some 1, None) (inf_run i (Some 1, None) [ROut [(ODelete, (1, 2, 4))]]) /\
+  rl_views i = [[(1, 1, Some 3, Some 23); (2, 1, Some 9, Some 9)];
+                [(1, 1, Some 4, Some 24); (1, 2, Some 5, Some 15)]].
+Proof. split; [apply inf_run_inv | vm_compute; reflexivity]. Qed.
